@@ -10,6 +10,7 @@ blank line after part headers, missing closing boundary, Content-Length that is 
 must give `err`, and nothing may panic."""
 import os, re
 from vlib import common as C
+from vlib import gen_c15 as G
 
 DRIVERS = ['ResponseM']   # model driver files this check runs: scopes translator failures to the tables they (and the proofs) import
 TRUSTED = ['Rust std as modelled: read_until on a Cursor, String::from_utf8 (Rws.Utf8R.valid), str::trim / is_whitespace (White_Space list), '
@@ -42,6 +43,9 @@ def crs(ps): return '|'.join(';'.join([hx(u), str(s), str(e), hx(z), hx(ct), hx(
 def resp_fields(r):
     return ' '.join([hx(r['version']), str(r['status']), hx(r['reason']), hdrs(r['headers']), crs(r['parts'])])
 def req_fields(method): return ' '.join([hx(method), hx('/'), hx('HTTP/1.1'), '-', '-'])
+def req_fields_full(q):
+    method, uri, ver, hs, body = q
+    return ' '.join([hx(method), hx(uri), hx(ver), hdrs(hs), hx(body)])
 
 def parse_resp_fields(f):
     """`ok <version> <status> <reason> <headers> <parts>` -> dict (bytes fields)"""
@@ -294,11 +298,12 @@ def run(res, tier, seed):
     lines, meta = [], []
 
     def add(op, fields, m): lines.append(op + ' ' + fields); meta.append(m)
-    def gen_both(r, kinds, method='GET', cls='wf'):
-        add('respgen', resp_fields(r) + ' ' + req_fields(method), ('gen', r, method, False, cls, kinds))
+    def gen_both(r, kinds, method='GET', cls='wf', req=None):
+        add('respgen', resp_fields(r) + ' ' + (req_fields_full(req) if req else req_fields(method)), ('gen', r, method, False, cls, kinds))
     def gen_inst(r, kinds, cls='wf'):
         add('respgeni', resp_fields(r), ('gen', r, 'GET', True, cls, kinds))
 
+    REQS = G.request_variants()
     # 1. exhaustive: every registered status x {1, 2 parts} x both serialisers (+ HEAD, OPTIONS for the associated fn)
     for st in table:
         for n in (1, 2):
@@ -320,7 +325,8 @@ def run(res, tier, seed):
     for i in range(700 if quick else 30000):
         r, kinds = gen_resp(rng, table, True)
         m = rng.choice(['GET', 'GET', 'GET', 'POST', 'HEAD', 'OPTIONS', 'get', 'head'])
-        gen_both(r, kinds, m)
+        q = rng.choice(REQS) if rng.chance(1, 4) else None       # the other fields of the request answered: target, version, headers, body
+        gen_both(r, kinds, m, req=(m,) + q[1:] if q else None)
         if rng.chance(1, 2): gen_inst(r, kinds)
     # 4. anything goes (outside the claimed class too): differential + no panic only
     for i in range(500 if quick else 20000):
@@ -328,6 +334,105 @@ def run(res, tier, seed):
         cls = 'wf' if wf(r, table) else 'any'
         gen_both(r, kinds, rng.choice(['GET', 'HEAD', 'OPTIONS']), cls)
         if rng.chance(1, 2): gen_inst(r, kinds, cls)
+    # 5. enumerated classes of the claimed class (vlib/gen_c15.py): what a draw from the small alphabets above reaches rarely or never
+    PLAIN_CTS = ['text/plain', 'image/png', 'application/json', 'text/html; charset=utf-8', 'x', 'application/octet-stream']
+    def small_parts(n, first=0):
+        ps = []
+        for i in range(n):
+            b = rng.bytes(rng.range(1, 12)) if rng.chance(3, 4) else b'part %d\r\n' % i
+            ps.append(('bytes', 0, len(b), str(len(b)), PLAIN_CTS[(first + i) % len(PLAIN_CTS)], b))
+        return ps
+    def mk(parts, headers=None, status=None, version='HTTP/1.1'):
+        code, phrase = status or rng.choice(table)
+        return dict(version=version, status=code, reason=phrase, headers=[('Host', 'localhost')] if headers is None else headers, parts=parts)
+    def emit(r, label, method='GET', inst=True, req=None):
+        cls = 'wf' if wf(r, table) else 'any'
+        if cls != 'wf': res.count('enumerated case outside the claimed class (differential only): ' + label)
+        gen_both(r, ['class ' + label.split(' ')[0]], method, cls, req)
+        if inst: gen_inst(r, ['class ' + label.split(' ')[0]], cls)
+    def head_len_without(hs):
+        r = mk([('bytes', 0, 3, '3', 'text/plain', b'abc')], hs, status=(200, 'OK'))
+        return len('HTTP/1.1 200 OK\r\n') + sum(len(n.encode()) + 2 + len(v.encode()) + 2 for n, v in hs + expect_framing(r)) + 2
+    # 5a. header lists: blank / control characters around and inside names and values, relatives of the framing header names, repeats, counts,
+    #     lengths around powers of two (value, name, line, whole head; multi-byte characters across them), the source's own header names
+    for i, (label, hs) in enumerate(G.header_lists(rng, quick, head_len_without)):
+        both_shapes = label.split(' ')[0] in ('edge-char', 'repeat', 'structural', 'unicode', 'reserved-relatives', 'empty', 'well-known')
+        big = sum(len(n) + len(v) for n, v in hs) > 20000
+        if label.startswith('head size'):
+            emit(mk([('bytes', 0, 3, '3', 'text/plain', b'abc')], hs, status=(200, 'OK')), label, inst=False)
+            emit(mk(small_parts(2), hs), label, inst=False)
+            continue
+        for n in ((1, 2) if both_shapes else (1 + i % 2,)):
+            emit(mk(small_parts(n if n == 1 or i % 3 else 3, i), hs), label, inst=not big or i % 4 == 0)
+    # 5b. content types: of a single body (blank around it, near-misses and other spellings of multipart/byteranges, boundary text, long, the source's media types)
+    #     and of parts (separator characters, long, near-misses of the part header names), every part position
+    for ct in G.single_content_types():
+        b = rng.bytes(rng.range(0, 9))
+        emit(mk([('bytes', 0, len(b), str(len(b)), ct, b)]), 'single-content-type', inst=False)
+    pcts = G.part_content_types()
+    for i in range(0, len(pcts), 1 if quick else 1):
+        n = 2 + i % 3
+        cts = [pcts[(i + j) % len(pcts)] for j in range(n)]
+        ps = [p[:4] + (ct,) + p[5:] for p, ct in zip(small_parts(n), cts)]
+        emit(mk(ps), 'part-content-type', inst=i % 2 == 0)
+    for ct in pcts[:12]:
+        emit(mk([p[:4] + (ct,) + p[5:] for p in small_parts(3)]), 'part-content-type all equal', inst=False)
+    # 5c. ranges: every (start, end, size) with equalities among the three at and around the machine-integer limits, alone and in every part position
+    trs = G.range_triples()
+    for i, (s_, e_, z_) in enumerate(trs):
+        b = rng.bytes(i % 5)
+        emit(mk([('bytes', s_, e_, str(z_), 'text/plain', b)], status=[(206, 'Partial Content'), (200, 'OK'), None][i % 3]), 'range-limits', inst=i % 3 == 0)
+    for i in range(0, len(trs), 2):
+        n = 2 + (i // 2) % 3
+        ps = [('bytes',) + trs[(i + j) % len(trs)][:2] + (str(trs[(i + j) % len(trs)][2]),) + p[4:] for j, p in enumerate(small_parts(n))]
+        emit(mk(ps), 'range-limits', inst=i % 4 == 0)
+    # 5d. part bodies: every literal in the first and the last position of two parts and in the middle of three; three literals together; as a single body
+    pbs = G.part_bodies()
+    def part_of(b, k=0): return ('bytes', 0, len(b), str(len(b)), PLAIN_CTS[k % len(PLAIN_CTS)], b)
+    for i, (label, b) in enumerate(pbs):
+        o = small_parts(2, i)
+        emit(mk([part_of(b, i), o[0]]), 'body ' + label, inst=False)
+        emit(mk([o[0], part_of(b, i)]), 'body ' + label, inst=False)
+        emit(mk([o[0], part_of(b, i), o[1]]), 'body ' + label, inst=i % 3 == 0)
+        emit(mk([part_of(pbs[(i + j) % len(pbs)][1], j) for j in range(3)]), 'body three literals', inst=i % 3 == 1)
+        emit(mk([part_of(b, i)]), 'body ' + label, inst=i % 3 == 2)
+    for label, b in G.single_only_bodies():
+        for ct in ('text/plain', 'multipart/mixed; boundary=String_separator'):
+            emit(mk([part_of(b)[:4] + (ct, b)]), 'body ' + label)
+    for i, (label, b) in enumerate(G.big_bodies(rng, quick)):
+        o = small_parts(2, i)
+        emit(mk([part_of(b)]), 'body-size ' + label, inst=False)
+        emit(mk([part_of(b), o[0]] if i % 2 else [o[0], part_of(b)]), 'body-size ' + label, inst=False)
+        if not quick: emit(mk([o[0], part_of(b), o[1]]), 'body-size ' + label)
+    # 5e. part lists: more than six parts, equal parts, equal ranges with different bytes, descending and overlapping ranges, all parts empty
+    for n in G.part_counts(quick):
+        emit(mk(small_parts(n)), 'part-count %d' % n, inst=n < 50)
+    one = ('bytes', 2, 5, '10', 'text/plain', b'cde')
+    for label, ps in [('equal x2', [one, one]), ('equal x3', [one] * 3), ('equal x6', [one] * 6), ('equal ends', [one, small_parts(1)[0], one]),
+                      ('equal range', [one, one[:5] + (b'CDE',)]), ('equal body', [one, ('bytes', 5, 8, '10', 'text/plain', b'cde')]),
+                      ('equal but type', [one, one[:4] + ('image/png', b'cde')]),
+                      ('descending', [('bytes', 7, 9, '10', 'text/plain', b'hi'), ('bytes', 4, 6, '10', 'text/plain', b'ef'), ('bytes', 0, 2, '10', 'text/plain', b'ab')]),
+                      ('overlapping', [('bytes', 0, 6, '10', 'text/plain', b'abcdef'), ('bytes', 3, 9, '10', 'text/plain', b'defghi'), ('bytes', 0, 10, '10', 'text/plain', b'abcdefghij')]),
+                      ('adjacent', [('bytes', 0, 3, '10', 'text/plain', b'abc'), ('bytes', 3, 6, '10', 'text/plain', b'def'), ('bytes', 6, 10, '10', 'text/plain', b'ghij')]),
+                      ('adjacent inclusive', [('bytes', 0, 2, '10', 'text/plain', b'abc'), ('bytes', 3, 5, '10', 'text/plain', b'def')]),
+                      ('nested', [('bytes', 0, 10, '10', 'text/plain', b'abcdefghij'), ('bytes', 2, 4, '10', 'text/plain', b'cd')]),
+                      ('sizes differ', [('bytes', 0, 2, '10', 'text/plain', b'ab'), ('bytes', 0, 2, '20', 'text/plain', b'ab'), ('bytes', 0, 2, '2', 'text/plain', b'ab')]),
+                      ('all empty x2', [part_of(b'')] * 2), ('all empty x3', [part_of(b'', k) for k in range(3)]), ('all empty x6', [part_of(b'', k) for k in range(6)]),
+                      ('empty between', [part_of(b'a'), part_of(b''), part_of(b''), part_of(b'b')]), ('all line breaks', [part_of(b'\r\n'), part_of(b'\r\n'), part_of(b'\n')])]:
+        for st in ((206, 'Partial Content'), (200, 'OK')):
+            emit(mk(ps, status=st), 'part-list ' + label)
+    # 5f. the request answered: every method spelling next to HEAD / OPTIONS, and requests whose other fields (target, version, Range and other headers, body) vary
+    for i, m in enumerate(G.METHODS):
+        emit(mk(small_parts(1)), 'method', method=m, inst=False)
+        emit(mk(small_parts(2 + i % 2)), 'method', method=m, inst=False)
+    for i, q in enumerate(G.request_variants()):
+        emit(mk(small_parts(1), status=[(200, 'OK'), (206, 'Partial Content')][i % 2]), 'request', method=q[0], inst=False, req=q)
+        emit(mk(small_parts(2 + i % 2), status=[(206, 'Partial Content'), (200, 'OK')][i % 2]), 'request', method=q[0], inst=False, req=q)
+    # 5g. every version x {1, 2, 3 parts} x both serialisers
+    for v in VERSIONS:
+        for n in (1, 2, 3):
+            emit(mk(small_parts(n), version=v), 'version')
+
     # regression inputs of the repaired defects and the open one
     f19 = dict(version='HTTP/1.1', status=206, reason='Partial Content', headers=[('Host', 'localhost')],
                parts=[('bytes', 2, 5, '10', 'text/plain', b'cdef')])
@@ -344,7 +449,7 @@ def run(res, tier, seed):
     for ln, m, a in zip(lines, meta, impl):
         _, r, method, inst, cls, kinds = m
         res.count(('instance' if inst else 'associated') + ' ' + method.upper() + ' parts=' + str(min(len(r['parts']), 3)) + ('+' if len(r['parts']) > 3 else '') + ' ' + cls)
-        for k in kinds: res.count('body ' + k)
+        for k in kinds: res.count(k if k.startswith('class ') else 'body ' + k)
         if a.startswith('panic') or a.startswith('abort'):
             res.fail('panic:' + a.split(' ', 1)[1], ln[:300], a, None, 'a serialiser panicked'); continue
         if not a.startswith('ok '): continue
@@ -355,7 +460,12 @@ def run(res, tier, seed):
                 f = a.split(' ')
                 after = parse_resp_fields(f[2:7])
                 if after != enc(r):
-                    res.fail('generate-drops-content-type', ln[:300], a[:160], None, 'Response::generate() changed self (pushed Content-Type onto it)')
+                    R = enc(r)
+                    pushed = dict(R, headers=R['headers'] + [(b'Content-Type', R['parts'][0][4])])
+                    if len(r['parts']) == 1 and after == pushed:
+                        res.fail('generate-drops-content-type', ln[:300], a[:160], None, 'Response::generate() changed self (pushed Content-Type onto it)')
+                    else:
+                        res.fail('generate:self-changed', ln[:300], a[:160], None, 'Response::generate() changed self in another way than the known Content-Type push')
         raw = C.unhx(a.split(' ')[1])
         add2('respparse', hx(raw), ('rt', r, method, inst, cls))
         if cls == 'wf' and not inst and method == 'GET' and wf(r, table) and len(raw) < 1500:
@@ -373,6 +483,9 @@ def run(res, tier, seed):
         other = rng2.choice([p for c, p in table if p.upper() != r['reason'].upper()])
         for code in ['299', '000', '99999', '-200', '2000', '20', '', '600', '32768', '199', '512', 'abc', '2 00', str(r['status']) + '0', '1' + str(r['status'])]:
             add2('respparse', hx(b' '.join([sl[0], code.encode(), sl[2]]) + rest), ('status', code))
+        for c2, p2 in [rng2.choice(table) for _ in range(3)] + [table[(table.index((r['status'], r['reason'])) + 1) % len(table)]]:
+            if p2.upper() != r['reason'].upper():
+                add2('respparse', hx(b' '.join([sl[0], str(c2).encode(), sl[2]]) + rest), ('phrase', f'code {c2} of another row under the phrase {r["reason"]}'))
         add2('respparse', hx(b' '.join([sl[0], b'+' + sl[1], sl[2]]) + rest), ('same', r))
         add2('respparse', hx(b' '.join([sl[0], b'0' + sl[1], sl[2]]) + rest), ('same-nocheck', r))
         for ph in [other, r['reason'] + 'x', 'x' + r['reason'], '', r['reason'][:-1], r['reason'] + ' ', r['reason'].replace(' ', '  ') + '!', 'ok']:
@@ -391,8 +504,8 @@ def run(res, tier, seed):
         be = raw.find(b'\r\n\r\n')
         add2('respparse', hx(raw[:be] + raw[be + 2:]), ('nocheck', 'dropped-blank-line'))
         for cl in ['x', '', '-1', '1e3', ' 4', '4 ', '99999999999999999999', '18446744073709551616', '0x10', '４']:
-            if b'Content-Length: ' in raw:
-                j = raw.find(b'Content-Length: ') + 16; k = raw.find(b'\r\n', j)
+            if b'\r\nContent-Length: ' in raw[:be + 2]:      # the framing header itself: a line of the head, not a value or a body that mentions it
+                j = raw.find(b'\r\nContent-Length: ') + 18; k = raw.find(b'\r\n', j)
                 add2('respparse', hx(raw[:j] + cl.encode() + raw[k:]), ('content-length', cl))
             else:
                 add2('respparse', hx(raw[:be] + b'\r\nContent-Length: ' + cl.encode() + raw[be:]), ('content-length', cl))
@@ -435,8 +548,14 @@ def run(res, tier, seed):
                 add2('respparse', hx(head + body.replace(old, new, 1)), ('nocheck', 'part-header'))
                 add2('respparse', hx(head + body.replace(old, new)), ('nocheck', 'part-header'))
         # other boundary in the Content-Type header
-        for nb in [b'zz', b'', b'String', b'separator', b'"String_separator"']:
-            add2('respparse', hx(raw.replace(b'boundary=String_separator', b'boundary=' + nb, 1)), ('nocheck', 'boundary-param'))
+        fr = b'\r\nContent-Type: ' + MPCT.encode() + b'\r\n'      # the framing header itself (the last header line), not a value or a body that mentions it
+        kf = head.rfind(fr)
+        def declared(nb): return raw[:kf] + b'\r\nContent-Type: multipart/byteranges; boundary=' + nb + b'\r\n' + raw[kf + len(fr):]
+        for nb in [b'', b'String', b'separator', b'"String_separator"', b'String_separator; charset=utf-8', b'"String_separator', b'String_separator"']:
+            add2('respparse', hx(declared(nb)), ('nocheck', 'boundary-param'))
+        # a declared boundary that the opening line does not contain: the opening boundary is missing
+        for nb in [b'zz', b'String_separatorX', b'xString_separator', b'STRING_SEPARATOR', b'string_separator', b'String_separator_', b'"zz"', b'String-separator', b'---String_separator']:
+            add2('respparse', hx(declared(nb)), ('no-opening-boundary', b'declared boundary ' + nb))
     for raw, r in singles: corrupt(raw, r)
     for raw, r in multis:
         corrupt(raw, r); corrupt_multi(raw, r)
@@ -458,6 +577,16 @@ def run(res, tier, seed):
         for wrap in (65536, -65536, 131072, 4294967296, -4294967296, 256 * 256 * 256):
             st(f'HTTP/1.1 {c + wrap} {p}\r\n', ('st-err', 'status'))
         st(f'HTTP/1.1 {c}\r\n', ('st-err', 'fields'))
+        c2, p2 = table[(table.index((c, p)) + 1) % len(table)]
+        if p2.upper() != p.upper():
+            st(f'HTTP/1.1 {c} {p2}\r\n', ('st-err', 'phrase'))          # phrase of the next row
+            st(f'HTTP/1.1 {c2} {p}\r\n', ('st-err', 'phrase'))          # code of the next row
+        if p:
+            st(f'HTTP/1.1 {c} {p[:-1]}\r\n', ('st-err', 'phrase'))
+            st(f'HTTP/1.1 {c} {p[1:]}\r\n', ('st-err', 'phrase'))
+            st(f'HTTP/1.1 {c} \r\n', ('st-err', 'phrase'))
+            st(f'HTTP/1.1 {c} {p} \r\n', ('st-err', 'phrase'))
+            st(f'HTTP/1.1 {c} {p} {p}\r\n', ('st-err', 'phrase'))
         st(f'HTTP/1.1 {c} {p.replace("s", "ſ").replace("i", "ı")}\r\n', ('st-nocheck', 0))
     for c in list(range(-5, 700)) + [32767, 32768, -32768, -32769, 65536 + 200, 99999]:
         if c not in codes: st(f'HTTP/1.1 {c} OK\r\n', ('st-err', 'status'))
@@ -560,8 +689,15 @@ def run(res, tier, seed):
 
     res.rule = ('serialise: every registered status (%d) x {1, 2 parts} x both serialisers (+HEAD/OPTIONS) exhaustively; every body kind (%s) in every part position '
                 'of 1/2/3/6-part responses; random responses of the claimed class (header lists of 0..40 headers, 1..6 parts, 4 versions, 8 method spellings) '
-                'and unrestricted ones; read back: every serialisation the implementation produced; corruptions: status digits, phrase, version, dropped CR/LF, '
-                'dropped blank line, Content-Length junk, every/7th truncation, byte flips, opening/closing boundary typos, missing blank line per part, part-header damage; '
+                'and unrestricted ones, a quarter of them answering requests whose target, version, headers and body vary; enumerated classes (vlib/gen_c15.py): header lists '
+                '(blank and control characters around and inside names and values, relatives of the three framing header names with hostile values, repeated headers, 41..257 headers, '
+                'value / name / line / head lengths around 256..65536 with multi-byte characters across them, every header name the source mentions, well-known name-value pairs), '
+                'content types (blank around a single one, other spellings and near-misses of multipart/byteranges, separator and boundary text, long, the source\'s media types, in every part position), '
+                'ranges at the machine-integer limits with every equality among start, end and size, part bodies (every length 0..4 over the reader\'s special bytes, every prefix and suffix and respelling '
+                'of the boundary text, boundary text in lines that are not UTF-8, bodies that look like part heads / responses / other multipart bodies, blank lines, trailing and leading blanks, NUL, BOM, '
+                'sizes 8191..65537, one long line, thousands of lines) in the first, last and a middle position and as single bodies, bodies containing the boundary line as single bodies, 7..100 parts, '
+                'equal / adjacent / overlapping / descending / all-empty part lists, 24 method spellings, request variants, every version x 1..3 parts; read back: every serialisation the implementation produced; corruptions: status digits, phrase, version, dropped CR/LF, '
+                'dropped blank line, Content-Length junk, every/7th truncation, byte flips, opening/closing boundary typos, a declared boundary the opening line does not hold, the code of another row under the phrase, missing blank line per part, part-header damage; '
                 'direct ops: status line (all statuses x spellings, all codes -5..700), header line, Content-Range value, multipart reader with 7 boundaries, UTF-8 grammar probes; '
                 'a case is non-trivial when the response has at least one part or the parsed text is non-empty' % (len(table), ', '.join(BODY_KINDS[:11])))
     res.exhaustive = 'all %d registered statuses x {1,2 parts} x {generate_response GET/HEAD/OPTIONS, generate}; status-line op for all %d statuses and all codes -5..700' % (len(table), len(table))
